@@ -1,38 +1,201 @@
 //! Controlled scheduling of the real `build()` / `clean()`.
 //!
 //! shuttle runs every "thread" of ruler as a coroutine on the calling OS thread and
-//! asks a `Scheduler` which task runs next at every scheduling point (spawn, join,
-//! thread exit, channel send/receive, and `yield_now` calls made by `MemSystem` on
-//! shared paths).  We do not use shuttle's own schedulers.  `Ctl` below:
+//! asks a `Scheduler` which task runs next at every scheduling point.  Through the
+//! shim (`crate::verif_shim`) and `MemSystem`, every visible operation — spawn, join,
+//! thread start/exit, channel send / receive / endpoint drop, every file-system call,
+//! the start of every command — is preceded by exactly one scheduling point, and the
+//! task *declares* the operation before yielding.  So at every scheduling point the
+//! scheduler knows the next operation of every runnable task.
+//!
+//! We do not use shuttle's own schedulers.  `Ctl` below
 //!
 //!  * replays a given *prefix* of choices (an out-of-range choice is a hard
 //!    "divergence" error: it would mean nondeterminism we do not own),
-//!  * after the prefix always takes option 0 of the canonical option list
-//!    (the running task if still runnable, else ascending task ids),
-//!  * records, for every choice point (a point with more than one option), the number
-//!    of options and whether the running task was among them.
+//!  * after the prefix takes, at every point, the first allowed option of the
+//!    canonical option list (the running task if still runnable, then ascending ids),
+//!  * records every choice point: options, their declared operations, the sleep set.
 //!
-//! Engines enumerate schedules statelessly on top of this: run a prefix to
-//! completion, then branch on every later choice point and alternative whose
-//! preemption cost stays within the bound.  Each complete schedule is produced
-//! exactly once (it is determined by its deviations from the default).
+//! Engines enumerate schedules statelessly on top of this: a work item is a choice
+//! prefix; it is run to completion with default choices.  Two exploration modes:
+//!
+//!  * **plain, preemption-bounded**: one child for every later choice point and every
+//!    alternative whose preemption count stays within the bound.  Every schedule with at
+//!    most c preemptions is run exactly once.
+//!  * **DPOR** (Flanagan & Godefroid 2005), unbounded: the complete step trace (task,
+//!    declared operation, runnable set) is analysed with vector clocks; for every pair of
+//!    *dependent* operations of different tasks that are not ordered by happens-before
+//!    (a race), the alternative that reverses them is scheduled at the node before the
+//!    first one (all runnable tasks if the second task was not runnable there).
+//!    Dependence is decided from declared footprints (`independent`), conservatively:
+//!    channel operations on different channels, file operations on different paths (or
+//!    two reads), and thread-local operations commute.  At the fixpoint at least one
+//!    schedule of every Mazurkiewicz trace has been run, with no preemption bound.
+//!
+//! A task whose declared operation is a receive on an empty channel with a live sender is
+//! treated as not runnable ("virtual blocking"): running it would only block it.
 use std::any::Any;
 use std::cell::RefCell;
+use std::collections::HashMap;
 use std::panic;
 use std::rc::Rc;
 
 use shuttle::scheduler::{Schedule, Scheduler, Task, TaskId};
+
+// ---------------------------------------------------------------------------
+// Declared operations
+
+#[derive(Clone, Debug, PartialEq, Eq)]
+pub enum OpDesc
+{
+    /// touches no shared object
+    Local(&'static str),
+    /// spawn / start / exit / join of thread `n`: ordered among themselves, independent of the rest
+    Thread(usize, &'static str),
+    /// any operation on channel `id` (send, recv, drop of an endpoint)
+    Chan(usize, &'static str),
+    /// file-system call: paths read, paths written
+    Fs { reads: Vec<String>, writes: Vec<String>, what: &'static str },
+    /// not declared: dependent with everything
+    Unknown,
+}
+
+fn path_conflict(a: &str, b: &str) -> bool
+{
+    // equal paths; or one is a directory-listing mark "dir/" and the other lies below it
+    if a == b
+    {
+        return true;
+    }
+    (a.ends_with('/') && b.starts_with(a)) || (b.ends_with('/') && a.starts_with(b))
+}
+
+/// Conservative independence of two declared operations of *different* tasks.
+pub fn independent(a: &OpDesc, b: &OpDesc) -> bool
+{
+    match (a, b)
+    {
+        (OpDesc::Unknown, _) | (_, OpDesc::Unknown) => false,
+        (OpDesc::Local(_), _) | (_, OpDesc::Local(_)) => true,
+        (OpDesc::Thread(x, _), OpDesc::Thread(y, _)) => x != y,
+        (OpDesc::Thread(..), _) | (_, OpDesc::Thread(..)) => true,
+        // same channel: only send/recv (ordering) and send/drop-receiver (a send on a channel
+        // without receiver fails) do not commute; a receive is enabled only when a message is
+        // queued or the sender is gone, so it commutes with the sender's drop; the two drops commute
+        (OpDesc::Chan(x, k1), OpDesc::Chan(y, k2)) => x != y || !matches!((*k1, *k2),
+            ("send", "recv") | ("recv", "send") | ("send", "drop-receiver") | ("drop-receiver", "send")),
+        (OpDesc::Chan(..), OpDesc::Fs { .. }) | (OpDesc::Fs { .. }, OpDesc::Chan(..)) => true,
+        (OpDesc::Fs { reads: ra, writes: wa, .. }, OpDesc::Fs { reads: rb, writes: wb, .. }) =>
+        {
+            for w in wa
+            {
+                if rb.iter().any(|p| path_conflict(w, p)) || wb.iter().any(|p| path_conflict(w, p))
+                {
+                    return false;
+                }
+            }
+            for w in wb
+            {
+                if ra.iter().any(|p| path_conflict(w, p))
+                {
+                    return false;
+                }
+            }
+            true
+        },
+    }
+}
+
+thread_local! {
+    static PENDING: RefCell<HashMap<usize, OpDesc>> = RefCell::new(HashMap::new());
+    static CHAN_IDS: RefCell<usize> = RefCell::new(0);
+    static THREAD_IDS: RefCell<usize> = RefCell::new(0);
+    /// channel id -> (messages queued, sender alive)
+    static CHAN_STATE: RefCell<HashMap<usize, (usize, bool)>> = RefCell::new(HashMap::new());
+    static BODY: RefCell<Option<Box<dyn FnOnce()>>> = RefCell::new(None);
+    static LAST_PANIC: RefCell<Option<String>> = RefCell::new(None);
+}
+
+pub fn in_execution() -> bool
+{
+    shuttle::current::get_current_task().is_some()
+}
+
+/// Declare the operation the current task performs after its next scheduling point.
+pub fn declare(op: OpDesc)
+{
+    if let Some(t) = shuttle::current::get_current_task()
+    {
+        PENDING.with(|p| { p.borrow_mut().insert(usize::from(t), op); });
+    }
+}
+
+pub fn fresh_channel_id() -> usize
+{
+    let id = CHAN_IDS.with(|c| { let mut c = c.borrow_mut(); *c += 1; *c });
+    CHAN_STATE.with(|m| { m.borrow_mut().insert(id, (0, true)); });
+    id
+}
+
+pub fn fresh_thread_id() -> usize
+{
+    THREAD_IDS.with(|c| { let mut c = c.borrow_mut(); *c += 1; *c })
+}
+
+pub fn chan_sent(id: usize)
+{
+    CHAN_STATE.with(|m| { if let Some(e) = m.borrow_mut().get_mut(&id) { e.0 += 1; } });
+}
+
+pub fn chan_received(id: usize)
+{
+    CHAN_STATE.with(|m| { if let Some(e) = m.borrow_mut().get_mut(&id) { if e.0 > 0 { e.0 -= 1; } } });
+}
+
+pub fn chan_sender_dropped(id: usize)
+{
+    CHAN_STATE.with(|m| { if let Some(e) = m.borrow_mut().get_mut(&id) { e.1 = false; } });
+}
+
+/// a receive on an empty channel whose sender is alive would only block
+fn virtually_blocked(op: &OpDesc) -> bool
+{
+    match op
+    {
+        OpDesc::Chan(id, "recv") => CHAN_STATE.with(|m| match m.borrow().get(id) { Some((0, true)) => true, _ => false }),
+        _ => false,
+    }
+}
+
+fn pending_of(t: usize) -> OpDesc
+{
+    PENDING.with(|p| p.borrow().get(&t).cloned().unwrap_or(OpDesc::Local("fresh")))
+}
+
+// ---------------------------------------------------------------------------
+
+#[derive(Clone, Debug)]
+pub struct Step
+{
+    pub task: u8,
+    pub op: OpDesc,
+    /// runnable tasks in canonical order (after virtual blocking); len 1 = forced
+    pub options: Vec<u8>,
+    /// index into `choices` if this was a choice point
+    pub choice: Option<u16>,
+    pub cur_enabled: bool,
+}
 
 #[derive(Clone, Debug, Default)]
 pub struct Trace
 {
     /// choice taken at each choice point (index into the canonical option list)
     pub choices: Vec<u8>,
-    /// number of options at each choice point
+    /// number of options / whether the running task was runnable, per choice point
     pub width: Vec<u8>,
-    /// whether the running task was runnable at the choice point (then option 0 is
-    /// "continue" and every other option is a preemption)
     pub cur_enabled: Vec<bool>,
+    /// every scheduling point (only recorded when the job asks for `full`)
+    pub steps_full: Vec<Step>,
     /// scheduling points including forced ones
     pub steps: usize,
 }
@@ -41,7 +204,7 @@ impl Trace
 {
     pub fn preemptions(&self, upto: usize) -> usize
     {
-        (0..upto).filter(|&i| self.cur_enabled[i] && self.choices[i] != 0).count()
+        (0..upto.min(self.choices.len())).filter(|&i| self.cur_enabled[i] && self.choices[i] != 0).count()
     }
 }
 
@@ -56,7 +219,17 @@ pub struct Outcome
 pub struct Job
 {
     pub prefix: Vec<u8>,
+    /// record the complete step trace (needed by DPOR)
+    pub full: bool,
     pub body: Box<dyn FnOnce()>,
+}
+
+impl Job
+{
+    pub fn serial(body: Box<dyn FnOnce()>) -> Job
+    {
+        Job { prefix: vec![], full: false, body }
+    }
 }
 
 pub trait Driver
@@ -69,20 +242,15 @@ struct CtlState
 {
     prefix: Vec<u8>,
     pos: usize,
+    full: bool,
     trace: Trace,
     active: bool,
-    diverged: bool,
 }
 
 struct Ctl<D: Driver>
 {
     st: Rc<RefCell<CtlState>>,
     driver: Rc<RefCell<D>>,
-}
-
-thread_local! {
-    static BODY: RefCell<Option<Box<dyn FnOnce()>>> = RefCell::new(None);
-    static LAST_PANIC: RefCell<Option<String>> = RefCell::new(None);
 }
 
 pub const DIVERGENCE: &str = "HARNESS-DIVERGENCE";
@@ -109,13 +277,17 @@ impl<D: Driver> Scheduler for Ctl<D>
             self.driver.borrow_mut().done(Outcome { trace, failure: None });
         }
         let job = self.driver.borrow_mut().next_job()?;
-        let Job { prefix, body } = job;
+        let Job { prefix, full, body } = job;
         let mut st = self.st.borrow_mut();
         st.prefix = prefix;
         st.pos = 0;
+        st.full = full;
         st.trace = Trace::default();
         st.active = true;
-        st.diverged = false;
+        PENDING.with(|p| p.borrow_mut().clear());
+        CHAN_IDS.with(|c| *c.borrow_mut() = 0);
+        THREAD_IDS.with(|c| *c.borrow_mut() = 0);
+        CHAN_STATE.with(|c| c.borrow_mut().clear());
         BODY.with(|b| *b.borrow_mut() = Some(body));
         Some(Schedule::new(0))
     }
@@ -124,16 +296,22 @@ impl<D: Driver> Scheduler for Ctl<D>
     {
         let mut st = self.st.borrow_mut();
         st.trace.steps += 1;
-        if runnable.len() == 1
-        {
-            return Some(runnable[0].id());
-        }
         // canonical order: running task first if runnable, then ascending ids
-        let mut ids: Vec<TaskId> = runnable.iter().map(|t| t.id()).collect();
-        ids.sort_by_key(|t| usize::from(*t));
+        let mut ids: Vec<usize> = runnable.iter().map(|t| usize::from(t.id())).collect();
+        ids.sort();
+        // virtual blocking: a receive that would only block is not an option (unless nothing else is)
+        if ids.len() > 1
+        {
+            let ready: Vec<usize> = ids.iter().cloned().filter(|t| !virtually_blocked(&pending_of(*t))).collect();
+            if !ready.is_empty()
+            {
+                ids = ready;
+            }
+        }
         let mut cur_enabled = false;
         if let Some(c) = current
         {
+            let c = usize::from(c);
             if let Some(p) = ids.iter().position(|t| *t == c)
             {
                 let t = ids.remove(p);
@@ -141,33 +319,153 @@ impl<D: Driver> Scheduler for Ctl<D>
                 cur_enabled = true;
             }
         }
-        let idx =
-        if st.pos < st.prefix.len()
+        let mut choice_no = None;
+        let chosen_idx =
+        if ids.len() == 1
         {
-            let i = st.prefix[st.pos] as usize;
-            if i >= ids.len()
-            {
-                st.diverged = true;
-                drop(st);
-                panic!("{}: choice {} of {} options while replaying a prefix", DIVERGENCE, i, ids.len());
-            }
-            i
+            0
         }
         else
         {
-            0
+            let i =
+            if st.pos < st.prefix.len()
+            {
+                let i = st.prefix[st.pos] as usize;
+                if i >= ids.len()
+                {
+                    drop(st);
+                    panic!("{}: choice {} of {} options while replaying a prefix", DIVERGENCE, i, ids.len());
+                }
+                i
+            }
+            else
+            {
+                0
+            };
+            choice_no = Some(st.pos as u16);
+            st.pos += 1;
+            st.trace.choices.push(i as u8);
+            st.trace.width.push(ids.len().min(255) as u8);
+            st.trace.cur_enabled.push(cur_enabled);
+            i
         };
-        st.pos += 1;
-        st.trace.choices.push(idx as u8);
-        st.trace.width.push(ids.len().min(255) as u8);
-        st.trace.cur_enabled.push(cur_enabled);
-        Some(ids[idx])
+        let chosen = ids[chosen_idx];
+        if st.full
+        {
+            st.trace.steps_full.push(Step
+            {
+                task: chosen as u8,
+                op: pending_of(chosen),
+                options: ids.iter().map(|x| *x as u8).collect(),
+                choice: choice_no,
+                cur_enabled,
+            });
+        }
+        Some(TaskId::from(chosen))
     }
 
     fn next_u64(&mut self) -> u64
     {
         0
     }
+}
+
+/// Plain enumeration: children of an executed trace for every choice point at or after
+/// `from` and every alternative within the preemption bound.
+pub fn children_plain(t: &Trace, from: usize, bound: Option<usize>) -> Vec<Vec<u8>>
+{
+    let mut out = vec![];
+    let mut pre = t.preemptions(from);
+    for i in from..t.choices.len()
+    {
+        let step_cost = if t.cur_enabled[i] { 1 } else { 0 };
+        let within = match bound { Some(b) => pre + step_cost <= b, None => true };
+        if within
+        {
+            for alt in 1..(t.width[i] as usize)
+            {
+                let mut prefix = t.choices[..i].to_vec();
+                prefix.push(alt as u8);
+                out.push(prefix);
+            }
+        }
+        if t.cur_enabled[i] && t.choices[i] != 0 { pre += 1; }
+    }
+    out
+}
+
+/// DPOR: backtrack points of one complete step trace.  For every step j, the last earlier
+/// step i of another task that is dependent with j and does not happen-before j is a race;
+/// the node before i gets the alternative "run task(j)" (or every other runnable task if
+/// task(j) was not runnable there).  Returns new choice prefixes (possibly already known).
+pub fn children_dpor(t: &Trace) -> Vec<Vec<u8>>
+{
+    let steps = &t.steps_full;
+    let n = steps.len();
+    let ntasks = steps.iter().map(|s| s.task as usize).max().map(|m| m + 1).unwrap_or(0);
+    let mut task_clock: Vec<Vec<u32>> = vec![vec![0; ntasks]; ntasks];
+    let mut step_clock: Vec<Vec<u32>> = Vec::with_capacity(n);
+    let mut out = vec![];
+    for j in 0..n
+    {
+        let p = steps[j].task as usize;
+        let mut c = task_clock[p].clone();
+        // race detection against the last dependent, unordered step of another task
+        let mut i = j;
+        while i > 0
+        {
+            i -= 1;
+            let q = steps[i].task as usize;
+            if q == p { continue; }
+            if independent(&steps[i].op, &steps[j].op) { continue; }
+            // i happens-before the current state of p ?
+            let hb = step_clock[i][q] <= c[q];
+            if hb { continue; }
+            // never co-enabled (ordering only, nothing to reverse): thread life-cycle operations
+            // of one thread; send and receive on one channel (receive is enabled by the send)
+            match (&steps[i].op, &steps[j].op)
+            {
+                (OpDesc::Thread(..), OpDesc::Thread(..)) => continue,
+                (OpDesc::Chan(_, "send"), OpDesc::Chan(_, "recv")) => continue,
+                _ => {},
+            }
+            if steps[i].options.len() > 1
+            {
+                if let Some(cno) = steps[i].choice
+                {
+                    let base = t.choices[..cno as usize].to_vec();
+                    let chosen = t.choices[cno as usize] as usize;
+                    match steps[i].options.iter().position(|x| *x as usize == p)
+                    {
+                        Some(alt) =>
+                        {
+                            if alt != chosen { let mut pr = base.clone(); pr.push(alt as u8); out.push(pr); }
+                        },
+                        None =>
+                        {
+                            for alt in 0..steps[i].options.len()
+                            {
+                                if alt != chosen { let mut pr = base.clone(); pr.push(alt as u8); out.push(pr); }
+                            }
+                        },
+                    }
+                }
+            }
+            break;
+        }
+        // happens-before: join with every earlier dependent step
+        for i in 0..j
+        {
+            if steps[i].task as usize != p && !independent(&steps[i].op, &steps[j].op)
+            {
+                for k in 0..ntasks { if step_clock[i][k] > c[k] { c[k] = step_clock[i][k]; } }
+            }
+        }
+        c[p] += 1;
+        task_clock[p] = c.clone();
+        step_clock.push(c);
+    }
+    out
 }
 
 fn payload_to_string(p: Box<dyn Any + Send>) -> String
@@ -230,9 +528,9 @@ pub fn run_jobs<D: Driver + 'static>(driver: D) -> D
     {
         prefix: vec![],
         pos: 0,
+        full: false,
         trace: Trace::default(),
         active: false,
-        diverged: false,
     }));
     loop
     {
@@ -278,7 +576,7 @@ pub fn run_jobs<D: Driver + 'static>(driver: D) -> D
     }
 }
 
-/// Run one closure under the serial schedule (option 0 everywhere) and return its value.
+/// Run one closure under a given choice prefix (default choices afterwards).
 pub struct Once1<R>
 {
     body: Option<Box<dyn FnOnce() -> R>>,
@@ -293,7 +591,7 @@ impl<R: 'static> Driver for Once1<R>
     {
         let body = self.body.take()?;
         let slot = self.slot.clone();
-        Some(Job { prefix: self.prefix.clone(), body: Box::new(move || { let r = body(); *slot.borrow_mut() = Some(r); }) })
+        Some(Job { prefix: self.prefix.clone(), full: false, body: Box::new(move || { let r = body(); *slot.borrow_mut() = Some(r); }) })
     }
 
     fn done(&mut self, outcome: Outcome)
@@ -312,9 +610,8 @@ pub fn run_once<R: 'static>(prefix: Vec<u8>, body: impl FnOnce() -> R + 'static)
     (r, d.outcome.expect("execution did not report an outcome"))
 }
 
-/// A persistent serial executor for engines that run very many single executions
-/// (explicit-state search): keeps one shuttle Runner alive per OS thread so that
-/// coroutine stacks are reused.  The engine supplies work through a closure.
+/// A persistent executor for engines that run very many executions: keeps one shuttle
+/// Runner alive per OS thread so that coroutine stacks are reused.
 pub struct Pump<F: FnMut(Option<Outcome>) -> Option<Job>>
 {
     pub f: F,
@@ -336,8 +633,7 @@ impl<F: FnMut(Option<Outcome>) -> Option<Job>> Driver for Pump<F>
 }
 
 /// `f(prev_outcome)` is called before every execution with the outcome of the previous
-/// one (None the first time) and returns the next job, or None to stop.  After the
-/// last execution `f` is called once more with its outcome so nothing is lost.
+/// one (None the first time) and returns the next job, or None to stop.
 pub fn pump<F: FnMut(Option<Outcome>) -> Option<Job> + 'static>(f: F)
 {
     let p = run_jobs(Pump { f, pending: None });
